@@ -89,9 +89,38 @@ func rootOf(v ssa.Value) (root ssa.Value, fields []ssa.Instruction) {
 	}
 }
 
+// freshOnly marks a class that a function writes only inside objects it allocated itself
+// (stores rooted at its own heap Alloc): a caller's existing objects of that class are unchanged,
+// so the call site forgets the class only above the allocation counter of the call (havocClasses).
+const freshOnly = "~"
+
+func freshable(k string) bool {
+	return strings.HasPrefix(k, "F:") || strings.HasPrefix(k, "E:") || strings.HasPrefix(k, "C:")
+}
+
 // writeClass computes the heap class written by a store through address value addr.
 // fr may be nil (static inference); then local allocs yield no class.
 func (fi *FrameInfo) writeClass(fr *Frame, addr ssa.Value, ws map[string]bool) {
+	if fr == nil {
+		if root, _ := rootOf(addr); root != nil {
+			if a, ok := root.(*ssa.Alloc); ok && a.Heap && !isLocalAlloc(a) {
+				tmp := map[string]bool{}
+				fi.writeClass0(nil, addr, tmp)
+				for k := range tmp {
+					if freshable(k) {
+						ws[freshOnly+k] = true
+					} else {
+						ws[k] = true
+					}
+				}
+				return
+			}
+		}
+	}
+	fi.writeClass0(fr, addr, ws)
+}
+
+func (fi *FrameInfo) writeClass0(fr *Frame, addr ssa.Value, ws map[string]bool) {
 	switch x := addr.(type) {
 	case *ssa.Alloc:
 		if fr != nil {
@@ -171,7 +200,7 @@ func (fi *FrameInfo) writeClass(fr *Frame, addr ssa.Value, ws map[string]bool) {
 				}
 			}
 			if _, ok := x.X.(*ssa.FieldAddr); ok {
-				fi.writeClass(fr, x.X, ws)
+				fi.writeClass0(fr, x.X, ws)
 				return
 			}
 			ws[elemClass(u.Elem().Underlying().(*types.Array).Elem())] = true
